@@ -192,6 +192,27 @@ def history_write_once(ctx, n, nsteps):
                      {"kind": "mktree", "tree": t1}, {"kind": "snap"}, {"kind": "walk"},
                      {"kind": "backup", "plan": None, "tree": t1, "snap_at": 9}, {"kind": "arch"}]
             cases.append({"id": f"b{k}{kind[-1]}", "steps": steps, "marks": marks})
+    # a delete killed while it holds the lock leaves GC_LOCK behind; a later delete / gc without --break-lock is refused and
+    # must leave everything, that lock included, where it is
+    for k in (6, 8, 11):
+        t0 = scen.small_tree(ctx.rng)
+        t1, _ = gen.mutate_tree(ctx.rng, t0)
+        o = scen.small_opts(ctx.rng)
+        steps = [{"op": "init"}, {"op": "mktree", "path": "src", "tree": t0}, {"op": "snap", "path": "src"}, {"op": "walk"},
+                 {"op": "backup", "opts": o}, {"op": "arch"},
+                 {"op": "mktree", "path": "src", "tree": t1}, {"op": "snap", "path": "src"}, {"op": "walk"},
+                 {"op": "backup", "opts": o}, {"op": "arch"},
+                 {"op": "delete", "bands": [0], "dry": False, "plan": {"crash": k}}, {"op": "arch"},
+                 {"op": "delete", "bands": [], "dry": False}, {"op": "arch"},
+                 {"op": "delete", "bands": [0], "dry": False}, {"op": "arch"}]
+        marks = [{"kind": "init"}, {"kind": "mktree", "tree": t0}, {"kind": "snap"}, {"kind": "walk"},
+                 {"kind": "backup", "plan": None, "tree": t0, "snap_at": 2}, {"kind": "arch"},
+                 {"kind": "mktree", "tree": t1}, {"kind": "snap"}, {"kind": "walk"},
+                 {"kind": "backup", "plan": None, "tree": t1, "snap_at": 7}, {"kind": "arch"},
+                 {"kind": "delete", "ids": [0], "dry": False, "killed": True}, {"kind": "arch"},
+                 {"kind": "delete", "ids": [], "dry": False}, {"kind": "arch"},
+                 {"kind": "delete", "ids": [0], "dry": False}, {"kind": "arch"}]
+        cases.append({"id": f"l{k}", "steps": steps, "marks": marks, "nomodel": True})
     res = ctx.cvh_run(cases)
     hs = []
     for c in cases:
@@ -260,6 +281,10 @@ def history_write_once(ctx, n, nsteps):
                             for e in scen.band_entries(dec["bands"][b]):
                                 for a in e.get("addrs", []):
                                     referenced.add(a["hash"])
+                        if "GC_LOCK" in prev and "GC_LOCK" not in cur and prs.get("result") != "ok" and not c["steps"][j].get("break_lock"):
+                            ctx.oracle_fail("writeonce/refused-delete-removed-foreign-lock", f"a delete that was refused ({json.dumps(prs.get('err'))[:120]}) removed "
+                                            f"the GC_LOCK that was already there (not its own)", {"steps": c["steps"][:j + 2]})
+                            okcase = False
                         for p in prev:
                             if p in cur or p == "GC_LOCK":
                                 continue
@@ -283,6 +308,9 @@ def history_write_once(ctx, n, nsteps):
         for m in c["marks"]:
             if m["kind"] in ("backup", "delete"):
                 ctx.dist("step_" + m["kind"] + ("_crashed" if m.get("plan") else ""))
+        if c.get("nomodel"):
+            ctx.dist("stale_lock_histories")
+            continue
         names = l4.Names()
         scen.collect_names(names, c["steps"], r)
         h = l4.History(c["id"], names)
